@@ -7,17 +7,20 @@
    from the old cache holds exactly the pre-state node; old outputs the new cache does not
    hold are gone; every other path is untouched; every recorded directory exists, every
    pre-existing directory is still there unless the old cache had recorded it;
-   C10_parents_of_failed_targets_removed_when_empty.  Label: partial — not proved: that no
-   empty unrecorded directory made by the build survives (third alternative of clause b1:
-   true on all computed histories), and that the file holds what its function wrote (C13
-   covers the recorded comparison result). *)
+   C10_parents_of_failed_targets_removed_when_empty;
+   C10_no_unrecorded_directory_survives / C10_made_directories_are_the_recorded_ones (Proofs/CommitDirs3Main.v,
+   SimI1-2.v): a directory that is there after a committed build and was not there before is recorded as created
+   in the new cache (so no directory made for a failed output survives unless a recorded output needs it), wherever
+   the cache file lies.  Label: partial - not proved: the same for targets with a non-creatable component (stated:
+   SimI2.no_unrecorded_directory_survives_any_target_statement; true on all computed histories of SimIEx.v), faults,
+   and that the file holds what its function wrote (C13 covers the recorded comparison result). *)
 From Coq Require Import List String Bool.
 From FB.Base Require Import PyVal Fs.
 From FB.Gen Require Import JsonUtilGen.
 From FB.Spec Require Import JsonSpec.
 From FB.Spec Require Import Prog.
 From FB.Model Require Import Types Monad BuildDirs SimpleOps Builder Persist Build Run Frame.
-From FB.Proofs Require Import BuildFileLaws FrameLaws RollbackLaws CommitDirsMain CommitDirs2File CommitDirs2FileMain.
+From FB.Proofs Require Import BuildFileLaws FrameLaws RollbackLaws CommitDirsMain CommitDirs2File CommitDirs2FileMain RollbackDirsLaws ViewDefs ViewInit ViewXDefs ViewXRun ViewR2 ViewR3 CommitDirs2Main CommitDirs3Main SimI2.
 (* T1g: Model/BuildDirs.v and Model/CreatedFiles.v are equal to the translation of build_dirs.py / created_files.py
    (Gen/BookGen.v, regenerated on every run); a change of those sources that the model does not follow breaks this import *)
 From FB.Proofs Require BookGenLaws.
@@ -107,3 +110,34 @@ Theorem C10_cache_file_target_rejected : forall p c f a kw fn w sa skw,
   sanitize a = Some sa -> sanitize kw = Some skw -> cache_has_file (w_new w) p = false -> p = w_cachefile w ->
   m_build_file p c f a kw fn w = (w, (inr (XRuntime RCacheFileTarget), Some (OBuildFile p c f sa skw [] PNone PNone true true))).
 Proof. exact bf_cache_file_target_rejected. Qed.
+
+(* clause (b1), third alternative: after a committed build (fault-free, condition A, creatable targets; any place of
+   the cache file, any well-formed previous cache) a directory that was not there before is one the new cache records
+   as created - the build leaves no directory of its own making that clean would not remove *)
+Theorem C10_no_unrecorded_directory_survives : forall cf nm vers svers root w w' v (P : path -> Prop),
+  w_faults w = [] ->
+  sanitize vers = Some svers ->
+  AllTargets P root ->
+  fs_wf (w_fs w) ->
+  (forall a t, (P t \/ t = cf \/ In t (cache_targets (old_cache_of (w_fs w) cf nm svers))) ->
+     below a t = true -> (forall f, lookup (w_fs w) a <> Some (NFile f)) /\ ~ P a) ->
+  (forall d, In d (c_dirs (old_cache_of (w_fs w) cf nm svers)) -> path_ok d = true) ->
+  WfCache (old_cache_of (w_fs w) cf nm svers) ->
+  old_ok (old_cache_of (w_fs w) cf nm svers) cf ->
+  (forall p, P p -> tgtP p) ->
+  (maxlen (w_fs w) < walk_fuel)%nat -> (List.length (dirname cf) < walk_fuel)%nat ->
+  run_build cf nm vers root w = (w', Done (inl v)) ->
+  forall d, lookup (w_fs w') d = Some NDir -> lookup (w_fs w) d <> Some NDir -> In d (c_dirs (w_new w')).
+Proof. exact no_unrecorded_directory_survives. Qed.
+
+Theorem C10_made_directories_are_the_recorded_ones : forall cf nm vers svers root w w' v (P : path -> Prop),
+  w_faults w = [] -> sanitize vers = Some svers -> AllTargets P root -> fs_wf (w_fs w) ->
+  (forall a t, (P t \/ t = cf \/ In t (cache_targets (old_cache_of (w_fs w) cf nm svers))) ->
+     below a t = true -> (forall f, lookup (w_fs w) a <> Some (NFile f)) /\ ~ P a) ->
+  (forall d, In d (c_dirs (old_cache_of (w_fs w) cf nm svers)) -> path_ok d = true) ->
+  WfCache (old_cache_of (w_fs w) cf nm svers) -> old_ok (old_cache_of (w_fs w) cf nm svers) cf ->
+  (forall p, P p -> tgtP p) -> (maxlen (w_fs w) < walk_fuel)%nat -> (List.length (dirname cf) < walk_fuel)%nat ->
+  run_build cf nm vers root w = (w', Done (inl v)) ->
+  forall d, lookup (w_fs w) d <> Some NDir ->
+    (lookup (w_fs w') d = Some NDir <-> In d (c_dirs (w_new w'))).
+Proof. exact made_directories_are_the_recorded_ones. Qed.
